@@ -291,6 +291,11 @@ def run(chk):
         extra = sorted(k for k in got if k not in ORDER and k != "__base__")
         r1.require(not extra, f"{fit.key}|unpack-order", fit.where(), f"_fit must store exactly the five error metrics by name; also found {extra}")
         r1.require(got.get("__base__") == "base_0", f"{fit.key}|baseline-wRMSE", fit.where(), f"wRMSE_base must be the wRMSE (position 0) of the unsplit model; found {got.get('__base__')}")
+    # ... and of *that model*: the attributes holding reported statistics are per-instance state (rules/classstate.py, shared with C01-C03)
+    from rules import classstate as _cs
+    from rules.common import HOURLY_MODEL as _HM
+    _cs.report(chk, r1, [dm] + list(chk.res.subclasses(dm)) + [chk.repo.cls(*_HM)], {"error", "baseline_metrics", "wRMSE_base", "_error_metrics"},
+               what="the statistics one model reports are overwritten by whichever model was fitted last")
     # the statistics reported after a fit are those of *that* fit: the same object fitted a second time on other data (refit scenario)
     from rules.daily_errors import refit_outcomes
     ro = refit_outcomes(chk, dm, fit, gem)
